@@ -692,7 +692,8 @@ theorem runWith_rel (special : SpecialFn) (mode : Mode) (sig : Sig) (raw : List 
 
 /-- a queued command that EXEC may run without leaving the databases of `T` -/
 def QAllowed (T : Nat → Prop) (e : String × List Bytes) : Prop :=
-  e.1 ≠ "swapdb" ∧ e.1 ≠ "move" ∧ e.1 ≠ "flushall" ∧ (e.1 = "select" → ∀ k, selTarget e.2 = some k → T k)
+  e.1 ≠ "swapdb" ∧ e.1 ≠ "move" ∧ e.1 ≠ "flushall" ∧ (e.1 = "select" → ∀ k, selTarget e.2 = some k → T k) ∧
+    e.1 ≠ "eval" ∧ e.1 ≠ "evalsha"
 
 def selectSig : Sig := ⟨"select", [.dbIndex], [], false, 1, 0, false⟩
 
@@ -734,17 +735,6 @@ def stubInner : Inner := fun _ _ => do fault "nested exec"; return none
 theorem stubInner_rel (sig : Sig) (raw : List Bytes) : Rel R (stubInner sig raw) := by
   unfold stubInner; rel
 
-theorem runInner_rel (mode : Mode) (sig : Sig) (raw : List Bytes) (hfind : SigTable.find sig.name = some sig)
-    (hA : QAllowed T (sig.name, raw)) : Rel R (runInner mode c sig raw) := by
-  unfold runInner
-  refine runWith_rel _ mode sig raw false (fun db db' args cis happ => ?_)
-  refine special_rel _ mode sig.name args cis hA.1 hA.2.1 hA.2.2.1 ?_ ?_
-  · intro hname
-    exact select_target hfind hname happ (hA.2.2.2 hname)
-  · intro _ sig' raw' _ _
-    exact stubInner_rel sig' raw'
-
-
 theorem shaHint_rel : Rel R shaHint := by
   unfold shaHint; rel
 
@@ -769,6 +759,19 @@ theorem runScriptCmd_rel (mode : Mode) (sig : Sig) (raw : List Bytes) (fromScrip
   have hd : T conn.db := hsel rfl
   rel
 
+/-- EXEC's nested runner: a queued script command is run by the direct script runner, so the queued commands
+must not be EVAL / EVALSHA either (as for a direct request, `runCommand_rel`); `QAllowed` says so -/
+theorem runInner_rel (mode : Mode) (sig : Sig) (raw : List Bytes) (hfind : SigTable.find sig.name = some sig)
+    (hA : QAllowed T (sig.name, raw)) : Rel R (runInner mode c sig raw) := by
+  refine runInner_cases (P := fun m => Rel R m) mode c sig raw
+    (fun _ => runScriptCmd_rel mode sig raw false hA.2.2.2.2.1 hA.2.2.2.2.2) (fun _ => ?_)
+  refine runWith_rel _ mode sig raw false (fun db db' args cis happ => ?_)
+  refine special_rel _ mode sig.name args cis hA.1 hA.2.1 hA.2.2.1 ?_ ?_
+  · intro hname
+    exact select_target hfind hname happ (hA.2.2.2.1 hname)
+  · intro _ sig' raw' _ _
+    exact stubInner_rel sig' raw'
+
 /-- `_run_command` for a command issued by a client: every command except SWAPDB, MOVE, FLUSHALL, EVAL, EVALSHA;
 SELECT only to a database of `T`; EXEC when every queued command satisfies `QAllowed T` -/
 theorem runCommand_rel (mode : Mode) (sig : Sig) (raw : List Bytes) (fromScript : Bool)
@@ -782,7 +785,7 @@ theorem runCommand_rel (mode : Mode) (sig : Sig) (raw : List Bytes) (fromScript 
   · refine runWith_rel _ mode sig raw fromScript (fun db db' args cis happ => ?_)
     refine special_rel _ mode sig.name args cis hA.1 hA.2.1 hA.2.2.1 ?_ ?_
     · intro hname
-      exact select_target hfind hname happ (hA.2.2.2 hname)
+      exact select_target hfind hname happ (hA.2.2.2.1 hname)
     · intro hname sig' raw' hfind' hA'
       exact runInner_rel mode sig' raw' hfind' (hexec hname _ hA')
 
